@@ -60,30 +60,50 @@ where
         walked_cstore
     }
 
-    /// Add new constraint `c` while keeping the store normalized
-    pub fn push_and_normalize(&mut self, newc: Rc<dyn Constraint<U, E>>) {
+    /// Add new constraint `c` while keeping the store normalized. Returns the constraints that
+    /// were left out of the store because they are redundant: stored constraints subsumed by the
+    /// new one, or the new constraint itself if a stored constraint already subsumes it.
+    pub fn push_and_normalize(
+        &mut self,
+        newc: Rc<dyn Constraint<U, E>>,
+    ) -> Vec<Rc<dyn Constraint<U, E>>> {
+        let mut dropped = Vec::new();
         if let Some(tree_newc) = newc.downcast_ref::<DisequalityConstraint<U, E>>() {
+            // A stored constraint that subsumes the new one makes the new one redundant.
+            let redundant = self.0.iter().any(|storec| {
+                storec
+                    .downcast_ref::<DisequalityConstraint<U, E>>()
+                    .map_or(false, |tree_storec| tree_storec.subsumes(tree_newc))
+            });
+            if redundant {
+                dropped.push(newc);
+                return dropped;
+            }
             let mut normalized = HashSet::new();
             for storec in self.0.drain() {
-                // All non-subsumable constraints are always carried along
-                if let Some(tree_storec) = storec.downcast_ref::<DisequalityConstraint<U, E>>() {
-                    if !tree_storec.subsumes(tree_newc) && !tree_newc.subsumes(tree_storec) {
+                // All constraints not subsumed by the new one are carried along
+                match storec.downcast_ref::<DisequalityConstraint<U, E>>() {
+                    Some(tree_storec) if tree_newc.subsumes(tree_storec) => dropped.push(storec),
+                    _ => {
                         normalized.insert(storec);
                     }
-                } else {
-                    normalized.insert(storec);
                 }
             }
             self.0 = normalized;
         }
-        self.insert(newc);
+        if !self.0.contains(&newc) {
+            self.0.insert(newc);
+        } else {
+            dropped.push(newc);
+        }
+        dropped
     }
 
     /// Remove redundant constraints from the store
     pub fn normalize(self) -> ConstraintStore<U, E> {
         let mut normalized_store = ConstraintStore::new();
         for storec in self.0.into_iter() {
-            normalized_store.push_and_normalize(storec.into());
+            let _ = normalized_store.push_and_normalize(storec.into());
         }
         normalized_store
     }
